@@ -75,7 +75,7 @@ def _batch_cases(tier, specs, maxlen=3):
                 for L in range(1, maxlen + 1):
                     for b in itertools.product(range(n), repeat=L):
                         yield {"spec": spec.name, "cfg": ci, "train": ti, "batch": list(b), "tier": tier}
-                for p in itertools.permutations(range(min(n, 4))):
+                for p in itertools.permutations(range(min(n, 4 if tier == "quick" else 5))):
                     yield {"spec": spec.name, "cfg": ci, "train": ti, "batch": list(p), "tier": tier}
 
 
